@@ -40,6 +40,8 @@ type Opt struct {
 	CgFd     bool   `json:"cgfd"`
 	Amb      bool   `json:"amb"`
 	Grp      string `json:"grp"`  // several | one | empty | nosg  (Credential.Groups / NoSetGroups)
+	Hn       string `json:"hn"`   // none | short | long  (HostName, only with uts)
+	Dn       string `json:"dn"`   // none | short | long  (DomainName, only with uts)
 	Gmap     string `json:"gmap"` // allow | deny  (GIDMappingsEnableSetgroups of the gid map given with a user namespace)
 }
 
@@ -385,8 +387,21 @@ func basePlan(e *Env, c Case) *plan {
 	r.WorkDir = p.req.WorkDir
 	r.Args = []string{exe, markerArg, "hold"}
 	if o.Uts {
-		p.req.Host = fmt.Sprintf("vh-%d", id)
-		p.req.Domain = fmt.Sprintf("vd-%d", id)
+		// four strings of four different lengths and different content
+		switch o.Hn {
+		case "none":
+		case "long":
+			p.req.Host = fmt.Sprintf("host-long-%d-abcdefgh", id)
+		default:
+			p.req.Host = fmt.Sprintf("h%d", id)
+		}
+		switch o.Dn {
+		case "none":
+		case "short":
+			p.req.Domain = fmt.Sprintf("dom%d", id)
+		default:
+			p.req.Domain = fmt.Sprintf("domain-very-long-%d-zyxwvutsrqpo.example", id)
+		}
 		r.HostName, r.DomainName = p.req.Host, p.req.Domain
 	}
 	if o.User {
